@@ -19,7 +19,7 @@ import vlib
 from vlib import Stream, exc_class, import_freephil, canon, obj_sx
 
 import c09
-from c09 import Codec, oracles, gen_master, gen_source, render_master, model_res, nowords_lines, NAMES
+from c09 import Codec, oracles, gen_master, gen_source, render_master, model_res, nowords_lines, NAMES, EDGE_NAMES
 
 PID = "C18"
 
@@ -76,15 +76,17 @@ def guard_obs(f, rx):
 
 
 def master_kids(nodes, path):
-    """the master's nodes declared at a field path (wf masters: unique sibling names)"""
+    """the master's nodes declared at a field path: the parameters of every active block of that scope name
+    (a non-multiple scope may be written in several blocks)"""
     cur = nodes
     for name in path:
-        nxt = None
+        nxt = []
+        found = False
         for n in cur:
             if n[0] == "s" and n[1] == name and not n[4]:
-                nxt = n[5]
-                break
-        if nxt is None:
+                nxt.extend(n[5])
+                found = True
+        if not found:
             return None
         cur = nxt
     return cur
@@ -142,10 +144,12 @@ class Fetched(Stream):
 
     def gen(self, rng, i):
         r = i % 10
-        if r < 4:
+        if r < 3:
             kind, nodes = "nomult", gen_master(rng, multiples=False)
-        elif r < 8:
+        elif r < 6:
             kind, nodes = "mult", gen_master(rng, multiples=True)
+        elif r < 8:
+            kind, nodes = "split", gen_master(rng, multiples=(i % 20 >= 10), split=True)
         else:
             kind, nodes = "loose", gen_master(rng, multiples=True, wf=False)
         return kind, nodes, "\n".join(gen_source(rng, nodes)) + "\n"
@@ -171,6 +175,11 @@ CORPUS_MASTERS = [
     ("mult", [s_("s", [d_("a", "int"), s_("t", [d_("b", "int")], mult=True)], mult=True)], "s { a = 2\n t { b = 3 }\n t { b = 4 } }\ns { a = 5 }\n"),
     ("mult", [d_("a", "ints", mult=True), s_("s", [d_("b", "words")], mult=True, opt=True)], ""),
     ("loose", [s_("s", [d_("a", "int")]), s_("s", [d_("b", "int"), s_("t", [d_("c", "int")])]), d_("a", "int", dis=True)], "s.b = 2\n"),
+    # a non-multiple scope written in two blocks, the later one declaring names from the identifier edge set; also inside
+    # the elements of a multiple scope (seeded change C18/m2)
+    ("split", [s_("s", [d_("a", "str")]), s_("s", [d_("__x", "int"), d_("b", "int")]),
+               s_("t", [s_("c", [d_("a", "str")]), s_("c", [d_("__phil_x", "int"), d_("x__", "int")])], mult=True)],
+     "t { c.a = p }\nt { c.__phil_x = 3 }\n"),
 ]
 
 
@@ -288,7 +297,7 @@ class Paths(Fetched):
         return None
 
     def in_domain(self, case):
-        return case["kind"] in ("nomult", "mult")
+        return case["kind"] in ("nomult", "mult", "split")
 
     def key(self, case, o):
         return json.dumps([case["m"], case["src"]]) if isinstance(o, dict) else None
@@ -300,7 +309,7 @@ class Paths(Fetched):
         return "%s:nodes%s" % (case["kind"], n if n < 4 else "4+")
 
 
-PROBE_NAMES = NAMES + ["aa", "x", "A", "b1", "_a", "", "a b", "junk_attr", "s.t",
+PROBE_NAMES = NAMES + EDGE_NAMES + EDGE_NAMES + ["__y", "x_", "aa", "x", "A", "b1", "_a", "", "a b", "junk_attr", "s.t",
                        "__phil_name__", "__inject__", "__phil_path__", "__call__", "__str__", "__init__", "__phil_get__",
                        "__phil_parent__", "__phil_call__", "__class__", "__dict__", "__doc__", "__x__"]
 
@@ -312,7 +321,8 @@ class Guard(Fetched):
     def corpus(self):
         out = []
         for kind, m, src in CORPUS_MASTERS:
-            for k, name in ((0, "a"), (1, "b"), (2, "zz"), (1, "__inject__"), (0, "__phil_name__"), (3, "t"), (2, "")):
+            for k, name in ((0, "a"), (1, "b"), (2, "zz"), (1, "__inject__"), (0, "__phil_name__"), (3, "t"), (2, ""),
+                            (1, "__x"), (3, "__phil_x"), (5, "x__"), (1, "__y")):
                 out.append({"m": m, "src": src, "kind": kind, "k": k, "name": name})
         return out
 
@@ -346,7 +356,9 @@ class Guard(Fetched):
         idx = case["k"] % nnodes
         name = case["name"]
         path, nd = self.node(w, idx)
-        declared = name in fields_of(nd)
+        # declared = an attribute of the node, or a parameter the master declares at this path (whatever was extracted)
+        kids = master_kids(case["m"], path) or []
+        declared = name in fields_of(nd) or any(n[1] == name and not (n[5] if n[0] == "d" else n[4]) for n in kids)
         s1 = guard_obs(lambda: setattr(nd, name, "probe"), _ASSIGN)
         keys_s = [k for k in fields_of(nd)] if s1 == ["ok"] else []
         path, nd = self.node(w, idx)
@@ -406,7 +418,7 @@ class Guard(Fetched):
         return None
 
     def in_domain(self, case):
-        return case["kind"] in ("nomult", "mult")
+        return case["kind"] in ("nomult", "mult", "split")
 
     def key(self, case, o):
         return json.dumps([case["m"], case["src"], case["k"], case["name"]]) if isinstance(o, dict) else None
